@@ -86,6 +86,22 @@ checks['C16']['text']+=' Plus scripted shutdowns while the transport is slow ins
 checks['C06']['text']+=' Committees of 65..204 members with id multisets repeating members at any position.'
 checks['C20']['text']+=' The block travelling next to the content is compared on the typed message parsed back and after a second raw->typed->raw leg.'
 
+
+# ---- rounds 6-7 extensions
+checks['C07']['engine']='sim+rt'; checks['C07']['note']=SIM_NOTE+" "+RT_NOTE
+checks['C07']['text']+=' Leader side: the proposal must be the block of the highest valid proof among the embedded authentic votes. Runtime half (rt ctx): a validation of a NEW_VIEW\'s fresh block that ends under a cancelled context must not lead to the proposal being adopted.'
+checks['C08']['engine']='sim+rt'; checks['C08']['note']=SIM_NOTE+" "+RT_NOTE
+checks['C08']['text']+=' Proofs stitched from two views, outsiders sharing the members\' id prefix, a parallel instance with id 0 / 2^64-1 / ours+-1, a third of the cases with split hand-off and syncs over three heights. Runtime half: the term that handles a COMMIT is identified by the random seed its share is verified against (live networks; a sync overtaking a round that is being set up).'
+checks['C11']['engine']='sim+rt'; checks['C11']['note']=SIM_NOTE+" "+RT_NOTE
+checks['C11']['text']+=' Runtime half (rt ctx): a leader whose proposal request was cancelled and returned no block must not announce the view.'
+checks['C17']['engine']='unit+sim+rt'; checks['C17']['note']=UNIT_NOTE+" "+SIM_NOTE+" "+RT_NOTE
+checks['C17']['text']+=' Also at heights next to 2^31, 2^32, 2^63 and 2^64-1; worker level in sim executions with split hand-off; on the real runtime the handling term of every COMMIT is identified by its seed.'
+checks['C02']['text']+=' A committee lookup that fails between two validations must fail that validation and leave nothing behind for the next.'
+checks['C04']['text']+=' Blocks on which the consumer\'s validator crashes are never approvals; a signed proposal approved on its own and later embedded in a NEW_VIEW next to another block.'
+checks['C05']['text']+=' The transport reports errors for sends that went out; a valid Byzantine NEW_VIEW preceded by its leader\'s own PREPARE.'
+checks['C18']['text']+=' An ordered-committee request that fails several times before it answers (the unordered block-proof committee is handed out in another order) must not change the rotation.'
+checks['C15']['text']+=' The ctx scenario runs at heights 1..3 with late triggers of the earlier height.'
+
 def cmd(pid, tier):
     return "./check %s --tier %s" % (pid, tier)
 
@@ -101,7 +117,7 @@ manifest = {
  },
  "engines": [
   {"name": "sim", "path": "sim/", "serves_properties": ["C01","C03","C04","C05","C07","C08","C09","C10","C11","C12","C13","C17","C18"], "kind_free_text": "deterministic single-threaded scheduler over N real WorkerLoops (verif hooks), Byzantine adversary with own keys + replay, online monitors over the SPI event log"},
-  {"name": "rt", "path": "rt/", "serves_properties": ["C02","C05","C12","C13","C14","C15","C16","C19"], "kind_free_text": "real MainLoop + WorkerLoop + timer trigger of 1..5 nodes in child processes built with -race: router with loss/dup/delay, parking SPI fakes, log-keyed delay injection, API driver, main-loop barrier and worker-iteration witness"},
+  {"name": "rt", "path": "rt/", "serves_properties": ["C02","C05","C07","C08","C11","C12","C13","C14","C15","C16","C17","C19"], "kind_free_text": "real MainLoop + WorkerLoop + timer trigger of 1..5 nodes in child processes built with -race: router with loss/dup/delay, parking SPI fakes, log-keyed delay injection, API driver, main-loop barrier and worker-iteration witness"},
   {"name": "unit", "path": "unit/", "serves_properties": ["C02","C06","C15","C17","C18","C19","C20"], "kind_free_text": "real function / component run on generated and enumerated inputs next to an independent reference oracle (math/big, sequential models, semantic re-parse)"},
  ],
  "checks": [],
